@@ -751,6 +751,40 @@ impl Default for InstExec {
     }
 }
 
+
+/// `ACC <kind> <list> <identity>`: every implementation of `AcceptableMasterList` the library ships, asked whether it
+/// accepts `identity` (`list`: `-` = empty, else comma separated clock identities)
+pub fn acc_line(w: &[&str]) -> String {
+    use statime::config::{AcceptAnyMaster, AcceptableMasterList};
+    if w.len() != 3 {
+        return "bad-op".into();
+    }
+    let list: Option<Vec<ClockIdentity>> = if w[1] == "-" { Some(vec![]) } else { w[1].split(',').map(|c| clock8(c).map(ClockIdentity)).collect() };
+    let (Some(list), Some(id)) = (list, clock8(w[2]).map(ClockIdentity)) else { return "bad-op".into() };
+    let r = match w[0] {
+        "any" => AcceptAnyMaster.is_acceptable(id),
+        "slice" => (&list[..]).is_acceptable(id),
+        "arrayvec" => {
+            let mut a: arrayvec::ArrayVec<ClockIdentity, 16> = arrayvec::ArrayVec::new();
+            for c in list.iter().take(16) {
+                a.push(*c);
+            }
+            if list.len() > 16 {
+                return "bad-op".into();
+            }
+            a.is_acceptable(id)
+        }
+        "vec" => list.is_acceptable(id),
+        "btree" => list.iter().copied().collect::<std::collections::BTreeSet<_>>().is_acceptable(id),
+        "hash" => list.iter().copied().collect::<std::collections::HashSet<_>>().is_acceptable(id),
+        "some-vec" => Some(list).is_acceptable(id),
+        "some-slice" => Some(&list[..]).is_acceptable(id),
+        "none" => None::<Vec<ClockIdentity>>.is_acceptable(id),
+        _ => return "bad-op".into(),
+    };
+    format!("acc {}", r as u8)
+}
+
 /// `<clock16>:<port>:<type>:<valuehex>` -> ForwardedTLV, built by letting a scratch port parse an Announce
 /// that carries the TLV (the only public way to obtain a `ForwardedTLV`)
 pub fn fwd_from_text(item: &str) -> Option<ForwardedTLV<'static>> {
@@ -822,6 +856,9 @@ impl Executor for InstExec {
     fn exec(&mut self, line: &str) -> String {
         // tokens starting with '#' are annotations for the checker (e.g. `#ins:<class>`)
         let w: Vec<&str> = line.split_whitespace().filter(|t| !t.starts_with('#')).collect();
+        if w.first() == Some(&"ACC") {
+            return acc_line(&w[1..]);
+        }
         if w.first() == Some(&"INIT") {
             drain_events();
             take_lock_trace();
